@@ -121,6 +121,9 @@ type VerifServerTrace struct {
 	Suite        uint16   // suite the server really keyed with
 	Group        CurveID  // group / curve the server really keyed with
 	SentHRR      bool
+	HonestHRR    bool    // the HelloRetryRequest was issued by the library's processClientHello (no usable share), not by the script
+	HRRGroup     CurveID // key_share selected_group of the HelloRetryRequest as sent
+	DerivedShare bool   // the client share for a forced X25519 was taken from the classical half of the hello's hybrid share
 	HRRSuite     uint16 // cipher suite field of the HelloRetryRequest as sent
 	ServerRandom []byte // ServerHello.random as sent (downgrade sentinel in the last 8 bytes)
 	HelloVers    uint16 // ServerHello.legacy_version as sent
@@ -233,6 +236,22 @@ func verifImplGroup13(g CurveID) bool {
 	return ok
 }
 
+// verifClassicalHalf: the X25519 half of a hybrid key share of the hello, as a plain X25519 share.
+func verifClassicalHalf(shares []keyShare, g CurveID) (keyShare, bool) {
+	if g != X25519 {
+		return keyShare{}, false
+	}
+	for _, ks := range shares {
+		if ks.group == X25519MLKEM768 && len(ks.data) == mlkem.EncapsulationKeySize768+x25519PublicKeySize {
+			return keyShare{group: X25519, data: ks.data[mlkem.EncapsulationKeySize768:]}, true
+		}
+		if ks.group == X25519Kyber768Draft00 && len(ks.data) == x25519PublicKeySize+mlkem.EncapsulationKeySize768 {
+			return keyShare{group: X25519, data: ks.data[:x25519PublicKeySize]}, true
+		}
+	}
+	return keyShare{}, false
+}
+
 // fabricateShare: a client key share for group g made up by the server (the client sent none).
 func verifFabricateShare(rand io.Reader, g CurveID) (keyShare, error) {
 	if g == X25519MLKEM768 {
@@ -304,10 +323,17 @@ func (v *verifServer) doctor13(ch *clientHelloMsg, pinSuite uint16, afterHRR boo
 			}
 		}
 		if !found {
-			ks, err := verifFabricateShare(v.c.config.rand(), g)
-			if err != nil {
-				return nil, err
+			// a hostile server needs a client share for g: if the hello carries a hybrid share, its classical half IS a
+			// genuine X25519 public key of the client (the handshake then is fully consistent); otherwise make one up
+			ks, derived := verifClassicalHalf(view.keyShares, g)
+			if !derived {
+				var err error
+				ks, err = verifFabricateShare(v.c.config.rand(), g)
+				if err != nil {
+					return nil, err
+				}
 			}
+			s.Trace.DerivedShare = derived
 			view.keyShares = append(append([]keyShare(nil), view.keyShares...), ks)
 		}
 	}
@@ -423,6 +449,7 @@ func (v *verifServer) handshake13(ch *clientHelloMsg) error {
 		}
 		hs.sentDummyCCS = true
 		s.Trace.SentHRR = true
+		s.Trace.HRRGroup = hrr.selectedGroup
 		msg, err := c.readHandshake(nil)
 		if err != nil {
 			return err
@@ -450,6 +477,12 @@ func (v *verifServer) handshake13(ch *clientHelloMsg) error {
 			hs.transcript = hrrTranscript
 			c.didHRR = true
 		}
+	} else if c.didHRR {
+		// processClientHello itself sent a HelloRetryRequest (doHelloRetryRequest: no share for the group it selected) and
+		// read the second ClientHello; it does not pass the choke point, so describe it in the trace
+		s.Trace.SentHRR, s.Trace.HonestHRR = true, true
+		s.Trace.HRRSuite, s.Trace.HRRGroup = hs.suite.id, c.curveID
+		s.Trace.ClientHellos = append(s.Trace.ClientHellos, append([]byte(nil), hs.clientHello.original...))
 	}
 	if s.ALPN != "" {
 		c.clientProtocol = s.ALPN
